@@ -13,12 +13,12 @@ namespace NS
 theorem cli_exit_args_literal_one : ∀ e ∈ cliExitTable, e.2.2 = "1" := by
   simp [cliExitTable]
 
-/-- `check` has exactly one exit site and it is conditional (reached under an `if`, or after an early `return`).
-    WHICH condition — the error count — is not read off the source text any more (a harmless rewrite counts the errors
-    in the printing loop): it is what `check_exit_byte_iff_error` states of the model and what the byte-exact tie of
-    the report checks on the binary, boundary counts 255/256/257/512 included. -/
-theorem cli_check_single_exit_guard :
-    (cliExitTable.filter (fun e => e.1 == "check")).map (fun e => e.2.1 != "") = [true] := by
+/-- every exit site of the CLI is conditional (reached under an `if`, or after an early `return`): no command exits
+    non-zero unconditionally.  WHICH condition guards the exit of `check` — the error count — is not read off the
+    source text (a harmless rewrite counts the errors in the printing loop, another renames the function): it is what
+    `check_exit_byte_iff_error` states of the model and what the byte-exact tie of the report checks on the binary,
+    boundary counts 255/256/257/512 included. -/
+theorem cli_exits_all_conditional : ∀ e ∈ cliExitTable, (e.2.1 != "") = true := by
   simp [cliExitTable]
 
 /-- the status observed by the parent process is non-zero exactly when some diagnostic has error severity -/
